@@ -86,12 +86,34 @@ def shapes(shape: str, with_hash: bool = False):
     A = RecordDescriptor("t/a", [("record", "v")])
     Bd = RecordDescriptor("t/b", [("record", "w")])
 
-    def check(v1: int, v2: int, w1: int, w2: int, n1: int, n2: int, samename: bool) -> bool:
+    import flow.record.base as B
+
+    def check(v1: int, v2: int, w1: int, w2: int, n1: int, n2: int, samename: bool, ign_v: bool, ign_w: bool) -> bool:
         """
         post: _
         """
         if not (0 <= n1 <= 2 and 0 <= n2 <= 2):
             return True
+        if shape == "grouped":
+            # the ignored-fields configuration reaches the members of a grouped record
+            ign = set()
+            if ign_v:
+                ign.add("v")
+            if ign_w:
+                ign.add("w")
+            ma = [] if n1 == 0 else ([A(v1, _generated=GEN)] if n1 == 1 else [A(v1, _generated=GEN), Bd(w1, _generated=GEN)])
+            mb = [] if n2 == 0 else ([A(v2, _generated=GEN)] if n2 == 1 else [A(v2, _generated=GEN), Bd(w2, _generated=GEN)])
+            a = GroupedRecord("g/one", ma)
+            b = GroupedRecord("g/one" if samename else "g/two", mb)
+            exp = samename and n1 == n2 and (n1 == 0 or ((ign_v or v1 == v2) and (n1 == 1 or ign_w or w1 == w2)))
+            with B.ignore_fields_for_comparison(ign):
+                got = a == b
+                rev = b == a
+                refl = a == a
+                ne = a != b
+                if with_hash and got and hash(a) != hash(b):
+                    return False
+            return got == exp and rev == exp and refl and ne == (not exp) and B.IGNORE_FIELDS_FOR_COMPARISON == set()
         if shape == "nested":
             a = H(IN(v1, _generated=GEN), [IN(w1, _generated=GEN)], _generated=GEN)
             b = H(IN(v2, _generated=GEN), [IN(w2, _generated=GEN)], _generated=GEN)
@@ -315,4 +337,16 @@ def replay(res):
     expect(lambda: not (g1 == g2) and not (g2 == g1) and not (g0 == g2) and not (g2 == g0) and g1 != g2, "grouped records with a different number of members compare equal")
     expect(lambda: not (g2 == g2c), "grouped records with different group names compare equal")
     expect(lambda: isinstance(hash(g0), int) and isinstance(hash(g1), int), "grouped record is not hashable")
+    # the ignored-fields configuration applies to the members of a grouped record as well
+    g3, g4 = GroupedRecord("g", [A(1, _generated=GEN), Bd(3, _generated=GEN)]), GroupedRecord("g", [A(5, _generated=GEN), Bd(2, _generated=GEN)])
+    other_gen = _dt.datetime(2021, 2, 3, tzinfo=_dt.timezone.utc)
+    g5 = GroupedRecord("g", [A(1, _generated=other_gen), Bd(2, _generated=other_gen)])
+    with B.ignore_fields_for_comparison({"w"}):
+        expect(lambda: g2 == g3 and g3 == g2 and hash(g2) == hash(g3) and not g2 != g3, "grouped records that differ only in an ignored field of a member are unequal / hash differently")
+        expect(lambda: not (g2 == g4), "grouped records that differ in a non-ignored field compare equal")
+    with B.ignore_fields_for_comparison({"v", "w"}):
+        expect(lambda: g2 == g4 and hash(g2) == hash(g4), "grouped records that differ only in ignored fields are unequal / hash differently")
+    with B.ignore_fields_for_comparison({"_generated"}):
+        expect(lambda: g2 == g5 and hash(g2) == hash(g5) and len({g2, g5}) == 1, "a grouped record and its rebuilt copy differ under ignore {_generated}")
+    expect(lambda: not (g2 == g3) and not (g2 == g5), "without the configuration the differing grouped records compare equal")
     return {"reproduced": bool(probs), "key": f"C12/{gid.split('/')[1]}", "what": "; ".join(probs[:2]), "input": {}}
